@@ -164,7 +164,12 @@ func Shorten(reg *Registry, m Mapping) mapper.Mapper[*Account] {
 		splitPos := a.Level() - suffix
 		ss := a.Segments()
 		pref, suff := ss[:splitPos], ss[splitPos:]
-		return reg.MustGetPath(append(pref[:level], suff...))
+		// Copy: appending to pref[:level] would overwrite the segments of
+		// the interned account a, which are shared.
+		shortened := make([]string, 0, level+len(suff))
+		shortened = append(shortened, pref[:level]...)
+		shortened = append(shortened, suff...)
+		return reg.MustGetPath(shortened)
 	}
 }
 
